@@ -44,7 +44,10 @@ func (s *swapStub) HandlePacket(context.Context, *types.ActionPacket) error {
 // H_C09_actions: arbitrary paused-action set, k pause/unpause messages with queries after each, then a transfer whose payload
 // contains a chosen action (or none) through the real middleware.
 func H_C09_actions() {
-	w := newWorldWith(false, true)
+	// an action identifier can be paused whether or not the chain has a controller for it (the application wires only
+	// the fee controller): the paused set and its queries must not depend on the wiring
+	swapRegistered := verif.Bool("swap-controller-registered")
+	w := newWorldWith(false, swapRegistered)
 	ex := w.K.Executor()
 	ms := executorcomp.NewMsgServer(ex, w.K)
 	qs := executorcomp.NewQueryServer(ex)
@@ -139,7 +142,11 @@ func H_C09_actions() {
 	must(err)
 	var acts []*core.Action
 	withFee, withSwap := false, false
-	switch verif.Choose("probe-actions", 4) {
+	nProbe := 4
+	if !swapRegistered {
+		nProbe = 2 // (a payload naming an action without a controller is refused for that reason: C05)
+	}
+	switch verif.Choose("probe-actions", nProbe) {
 	case 1:
 		withFee = true
 	case 2:
